@@ -690,7 +690,8 @@ def rule_brick(c, prog, R="C17.brick"):
     # Display: variant -> name
     disp = prog.impl_fn("core::fmt::Display", BC, "fmt")
     names = {}
-    for n in core.walk_fn(disp):
+    from . import common as _common
+    for n in _common.walk_inline(prog, disp.body, "rbx_types::brick_color", 2):      # the table may sit in a private `name()` that fmt prints
         if n.get("k") == "Match" and n.get("src") == "Normal":
             for arm in n["arms"]:
                 v = core.pat_str(arm["pat"]).rsplit("::", 1)[-1]
